@@ -696,4 +696,91 @@ theorem reverse_step (L : Nat) (B : List Bits) (hB : ∀ b ∈ B, b.length = L) 
   rw [bsetSlice_nat _ _ ((B.length - 1 - j) * L) ((B.length - 1 - j) * L + L) (by omega) (by omega) (by omega)]
   rw [set_block L _ [] _ hB1 (B.length - 1 - j) (by rw [List.length_set]; exact hj2)]
 
+/-- The block list after `m` iterations of the swap loop: the first `m` and the last `m` positions are mirrored. -/
+def swapped (bs : List Bits) (m : Nat) : List Bits :=
+  (List.range bs.length).map fun i => if i < m ∨ bs.length - m ≤ i then bs.getD (bs.length - 1 - i) [] else bs.getD i []
+
+theorem swapped_length (bs : List Bits) (m : Nat) : (swapped bs m).length = bs.length := by simp [swapped]
+
+theorem swapped_getElem (bs : List Bits) (m i : Nat) (hi : i < (swapped bs m).length) :
+    (swapped bs m)[i] = if i < m ∨ bs.length - m ≤ i then bs.getD (bs.length - 1 - i) [] else bs.getD i [] := by
+  simp [swapped]
+
+theorem swapped_zero (bs : List Bits) : swapped bs 0 = bs := by
+  apply List.ext_getElem
+  · simp [swapped_length]
+  · intro i h1 h2
+    rw [swapped_getElem]
+    have : ¬ (i < 0 ∨ bs.length - 0 ≤ i) := by omega
+    rw [if_neg this, List.getD_eq_getElem?_getD, List.getElem?_eq_getElem h2]
+    rfl
+
+theorem swapped_blocks (L : Nat) (bs : List Bits) (hbs : ∀ b ∈ bs, b.length = L) (m : Nat) :
+    ∀ b ∈ swapped bs m, b.length = L := by
+  intro b hb
+  unfold swapped at hb
+  simp only [List.mem_map, List.mem_range] at hb
+  obtain ⟨i, hi, rfl⟩ := hb
+  split
+  · have h : bs.length - 1 - i < bs.length := by omega
+    rw [List.getD_eq_getElem?_getD, List.getElem?_eq_getElem h]
+    exact hbs _ (List.getElem_mem h)
+  · rw [List.getD_eq_getElem?_getD, List.getElem?_eq_getElem hi]
+    exact hbs _ (List.getElem_mem hi)
+
+theorem swapped_succ (bs : List Bits) (m : Nat) (hm : 2 * m + 1 ≤ bs.length) :
+    ((swapped bs m).set m ((swapped bs m)[bs.length - 1 - m]'(by rw [swapped_length]; omega))).set (bs.length - 1 - m)
+      ((swapped bs m)[m]'(by rw [swapped_length]; omega)) = swapped bs (m + 1) := by
+  apply List.ext_getElem
+  · simp [swapped_length]
+  · intro i h1 h2
+    have hi : i < bs.length := by rw [swapped_length] at h2; exact h2
+    simp only [List.getElem_set, swapped_getElem]
+    split_ifs <;> first | rfl | (exfalso; omega) | (congr 1; omega)
+
+/-- Once the mirrored zones meet, the list is reversed. -/
+theorem swapped_full (bs : List Bits) (m : Nat) (hm : bs.length ≤ 2 * m + 1) (hm2 : 2 * m ≤ bs.length + 1) :
+    swapped bs m = bs.reverse := by
+  apply List.ext_getElem
+  · simp [swapped_length]
+  · intro i h1 h2
+    have hi : i < bs.length := by rw [swapped_length] at h1; exact h1
+    have hr : bs.length - 1 - i < bs.length := by omega
+    rw [swapped_getElem, List.getElem_reverse]
+    split
+    · rw [List.getD_eq_getElem?_getD, List.getElem?_eq_getElem hr]; rfl
+    · rename_i hc
+      have : i = bs.length - 1 - i := by omega
+      rw [List.getD_eq_getElem?_getD, List.getElem?_eq_getElem hi]
+      simp only [Option.getD_some]
+      congr 1
+
+/-- The swap loop over the first `m` offsets (each with `2k+1 ≤ n`). -/
+theorem swap_fold (L : Nat) (bs : List Bits) (hbs : ∀ b ∈ bs, b.length = L) (m : Nat) (hm : ∀ k < m, 2 * k + 1 ≤ bs.length) :
+    (List.range m).foldl (fun acc (k : Nat) =>
+      let sb : Int := (0 : Int) + (k : Int) * (L : Int)
+      let sw : Int := (acc.length : Int) - sb - (L : Int)
+      let temp := bslice acc (some sb) (some (sb + (L : Int)))
+      let acc1 := bsetSlice acc sb (sb + (L : Int)) (bslice acc (some sw) (some (sw + (L : Int))))
+      bsetSlice acc1 sw (sw + (L : Int)) temp) (bs.flatten ++ ([] : Bits))
+    = (swapped bs m).flatten ++ ([] : Bits) := by
+  induction m with
+  | zero => simp [swapped_zero]
+  | succ m ih =>
+    rw [List.range_succ, List.foldl_append, ih (fun k hk => hm k (by omega))]
+    simp only [List.foldl_cons, List.foldl_nil]
+    have hB := swapped_blocks L bs hbs m
+    have h2 : 2 * m + 1 ≤ (swapped bs m).length := by rw [swapped_length]; exact hm m (by omega)
+    have := reverse_step L (swapped bs m) hB m h2
+    simp only at this
+    rw [this]
+    congr 2
+    have hl := swapped_length bs m
+    have hs := swapped_succ bs m (hm m (by omega))
+    rw [← hs]
+    congr 1
+    · congr 1
+      simp only [hl]
+    · exact hl ▸ rfl
+
 end BM.C14
